@@ -1218,10 +1218,11 @@ impl Channel {
                 counterparty_htlc_sigs.to_vec(),
             );
             self.enforcement_state.next_holder_commit_info = Some((info2, counterparty_signatures));
+            trace_enforcement_state!(self);
+            // a retry or a commitment further ahead changes nothing, so there is nothing to
+            // store (a refused request must not leave mutations behind)
+            self.persist()?;
         }
-
-        trace_enforcement_state!(self);
-        self.persist()?;
 
         Ok(())
     }
@@ -2516,10 +2517,11 @@ impl Channel {
                 counterparty_htlc_sigs.to_vec(),
             );
             self.enforcement_state.next_holder_commit_info = Some((info2, counterparty_signatures));
+            trace_enforcement_state!(self);
+            // a retry or a commitment further ahead changes nothing, so there is nothing to
+            // store (a refused request must not leave mutations behind)
+            self.persist()?;
         }
-
-        trace_enforcement_state!(self);
-        self.persist()?;
 
         Ok(())
     }
